@@ -540,7 +540,7 @@ func (e *mxExec) mutate(cmd string, a []string, line string, class *string) (out
 		if e.msgs[id] != nil {
 			return "unsupported"
 		}
-		e.msgs[id] = acmelib.NewMessage("m"+a[0], acmelib.MessageID(id), atoi(a[1]))
+		e.msgs[id] = acmelib.NewMessage(sprintf("m%d", id%3), acmelib.MessageID(1+id%2), atoi(a[1])) // detached messages may share ids and names
 		return "ok"
 	case "msg.app", "msg.ins":
 		m := e.msgs[atoi(a[0])]
